@@ -294,6 +294,24 @@ Climatology(c, up) ==
                  ELSE IF Outside(v, Span(m.vspan)) THEN {SUSPECT}
                  ELSE {GOOD}])
 
+(* Growth beyond C08: ClimatologyConfig.values(t, z), the lookup API.  It is *)
+(* written as the code behaves and its membership rule is NOT that of the   *)
+(* test (MemberMatches): the lower end of the time span and of the depth    *)
+(* span is exclusive, and a member applies only if depth and depth span are *)
+(* both given or both absent.  (LookupStricter: whatever the lookup matches *)
+(* the test matches too; the converse fails exactly at those points.)       *)
+LookupMatches(m, tsec, zv) ==
+    LET tv == IF m.period = "" THEN tsec ELSE PeriodValue(m.period, tsec)
+        ts == Span(m.tspan)
+    IN  /\ tv > ts[1] /\ tv <= ts[2]
+        /\ \/ (Pres(zv) /\ IsGiven(m.zspan) /\ LET zs == Span(m.zspan) IN zv > zs[1] /\ zv <= zs[2])
+           \/ (~Pres(zv) /\ ~IsGiven(m.zspan))
+\* the valid span of the last member the lookup matches (<<>>: none)
+ClimValues(ms, tsec, zv) ==
+    LET matching == { k \in 1..Len(ms) : LookupMatches(ms[k], tsec, zv) } IN
+    IF matching = {} THEN <<>> ELSE Span(ms[Max(matching)].vspan)
+LookupStricter(m, tsec, zv) == LookupMatches(m, tsec, zv) => MemberMatches(m, tsec, zv)
+
 -----------------------------------------------------------------------------
 Fns == {"gross", "valid", "spike", "roc", "flat", "att", "dens", "press",
         "loc", "speed", "clim"}
